@@ -151,6 +151,9 @@ def C02(c):
     c.corr("random", rnd, combos, judge=judge)
     c.corr("random-cg", C.random_part_cases(rng, ["cg"], c.n(600, 6000), objs=C.OBJS5), combos_of(["list"], [PT]), judge=judge)
     c.corr("random-ilp", C.random_part_cases(rng, ["ilp"], c.n(200, 2000), objs=C.OBJS5), combos_of(["list"], [PT]), judge=judge)
+    # complete Karmarkar-Karp with 5 bins and small values: many coinciding partial sums (the combination enumerator's de-duplication matters)
+    many = [{"alg": "ckk", "vals": [rng.randint(1, 4) for _ in range(rng.randint(6, 7))], "p": {"k": 5}} for _ in range(c.n(250, 2500))]
+    c.corr("ckk-5-bins-small-values", many, combos_of(["list"], ["Sums", PT]), judge=judge)
 
 
 # ------------------------------------------------------------------------------------------------ C04
